@@ -87,7 +87,7 @@ Lemma lines_line : forall x rest cur, no_lf x ->
   lines (x ++ LF :: rest) cur = (rev cur ++ x ++ [LF]) :: lines rest [].
 Proof.
   induction x as [|c x IH]; intros rest cur Hx; cbn [app lines].
-  - change (LF =? LF) with true. cbv iota. cbn [rev]. rewrite <- app_assoc. reflexivity.
+  - change (LF =? LF) with true. cbv iota. reflexivity.
   - inversion Hx; subst. replace (c =? LF) with false by lia. rewrite IH by assumption.
     cbn [rev]. rewrite <- app_assoc. reflexivity.
 Qed.
@@ -95,7 +95,7 @@ Qed.
 Lemma lines_concat : forall l cur, concat (lines l cur) = rev cur ++ l.
 Proof.
   induction l as [|c l IH]; intros cur; cbn [lines].
-  - destruct cur; cbn; [reflexivity|]. rewrite app_nil_r, app_nil_r. reflexivity.
+  - destruct cur; [reflexivity|]. cbn [concat]. rewrite !app_nil_r. reflexivity.
   - destruct (c =? LF) eqn:E.
     + cbn [concat]. rewrite IH. cbn [rev app]. rewrite <- app_assoc. reflexivity.
     + rewrite IH. cbn [rev]. rewrite <- app_assoc. reflexivity.
@@ -112,8 +112,7 @@ Definition header_lines (h : bytes * bytes) : list bytes :=
 Lemma format_header_lines h : format_header h = concat (header_lines h).
 Proof.
   unfold format_header, header_lines. destruct (split_lf (snd h) []) as [|first rest]; [reflexivity|].
-  cbn [concat]. rewrite <- !app_assoc. cbn [app]. f_equal. f_equal. f_equal.
-  induction rest as [|l rest IH]; [reflexivity|]. cbn [flat_map map concat]. rewrite IH. reflexivity.
+  cbn [concat]. rewrite flat_map_concat_map. rewrite <- !app_assoc. cbn [app]. rewrite <- !app_assoc. reflexivity.
 Qed.
 
 Lemma lines_of_lines : forall (ls : list bytes) rest,
@@ -168,14 +167,6 @@ Qed.
 Definition flushk (k : option bytes) (v : bytes) : list pitem :=
   match k with Some key => [PHeader key (strip_last_lf v)] | None => [] end.
 
-Lemma parse_lines_flush_head ls k v : (* unfolding helper *)
-  match ls with
-  | (c :: cont) :: r =>
-    if c =? SP then True else True
-  | _ => True
-  end.
-Proof. destruct ls as [|[|c cont] r]; auto. destruct (c =? SP); auto. Qed.
-
 Lemma parse_one_header h ls k v : key_ok (fst h) ->
   parse_lines (header_lines h ++ ls) k v =
   flushk k v ++ parse_lines ls (Some (fst h)) (snd h ++ [LF]).
@@ -191,7 +182,7 @@ Proof.
   change (c :: kk ++ SP :: first ++ [LF]) with ((c :: kk) ++ SP :: (first ++ [LF])).
   rewrite (split_sp_key (c :: kk) (first ++ [LF]) Hk []). cbn [rev app].
   fold (flushk k v). f_equal.
-  rewrite parse_conts. f_equal. cbn [map concat] in Hj. rewrite <- app_assoc. exact Hj.
+  rewrite parse_conts. f_equal. cbn [map concat] in Hj. rewrite <- app_assoc in Hj. rewrite <- ?app_assoc. exact Hj.
 Qed.
 
 Lemma parse_headers : forall hs ls k v,
@@ -216,7 +207,10 @@ Lemma message_roundtrip_lemma hs body :
   map (fun h => PHeader (fst h) (snd h)) hs ++ [PBody (Some (match body with Some b => b | None => [] end))].
 Proof.
   intros Hall. unfold parse_message, format_message.
-  set (b := match body with Some b => b | None => [] end).
+  assert (Hgen : forall b : bytes,
+    parse_lines (lines (flat_map format_header hs ++ [LF] ++ b) []) None [] =
+    map (fun h => PHeader (fst h) (snd h)) hs ++ [PBody (Some b)]); [|destruct body; apply Hgen].
+  intros b.
   assert (Hfl : flat_map format_header hs = concat (concat (map header_lines hs))).
   { clear. induction hs as [|h hs IH]; [reflexivity|]. cbn [flat_map map concat]. rewrite concat_app, IH, format_header_lines. reflexivity. }
   rewrite Hfl. rewrite lines_of_lines.
@@ -233,6 +227,113 @@ Proof.
   assert (Hl : forall (l : list (bytes * bytes)) d, l <> [] ->
             map (fun h => PHeader (fst h) (snd h)) (removelast l) ++ [PHeader (fst (last l d)) (snd (last l d))]
             = map (fun h => PHeader (fst h) (snd h)) l).
-  { intros l d Hne. rewrite (app_removelast_last d Hne) at 3. rewrite map_app. reflexivity. }
+  { intros l d Hne. pose proof (app_removelast_last d Hne) as E.
+    replace (map (fun h => PHeader (fst h) (snd h)) l)
+      with (map (fun h => PHeader (fst h) (snd h)) (removelast l ++ [last l d])) by (rewrite <- E; reflexivity).
+    rewrite map_app. reflexivity. }
   rewrite <- (Hl (h :: hs') ([], []) ltac:(discriminate)). rewrite <- app_assoc. reflexivity.
+Qed.
+
+(* ---------- (c) trees ---------- *)
+Definition ov (l : bytes) (init : Z) : Z := fold_left (fun a c => a * 8 + (c - 48)) l init.
+
+Lemma octal_digits_acc : forall fuel n acc, octal_digits fuel n acc = octal_digits fuel n [] ++ acc.
+Proof.
+  induction fuel as [|f IH]; intros n acc; cbn [octal_digits]; [reflexivity|].
+  destruct (n <? 8); [reflexivity|]. rewrite IH. rewrite (IH (n / 8) [48 + n mod 8]). rewrite <- app_assoc. reflexivity.
+Qed.
+
+Lemma octal_digits_spec : forall fuel n, 0 <= n < 2 ^ Z.of_nat fuel -> (0 < fuel)%nat ->
+  ov (octal_digits fuel n []) 0 = n /\ forallb is_octal (octal_digits fuel n []) = true /\ octal_digits fuel n [] <> [].
+Proof.
+  induction fuel as [|f IH]; intros n Hn Hf; [lia|]. cbn [octal_digits].
+  destruct (n <? 8) eqn:E.
+  - split; [unfold ov; cbn [fold_left]; lia|]. split; [cbn [forallb]; unfold is_octal; lia|discriminate].
+  - rewrite octal_digits_acc.
+    assert (Hp : 2 ^ Z.of_nat (S f) = 2 * 2 ^ Z.of_nat f) by (rewrite Nat2Z.inj_succ, Z.pow_succ_r by lia; reflexivity).
+    assert (Hf0 : (0 < f)%nat).
+    { destruct f; [|lia]. change (2 ^ Z.of_nat 1) with 2 in Hn. lia. }
+    destruct (IH (n / 8) ltac:(lia) Hf0) as (V & O & N).
+    unfold ov in *. rewrite fold_left_app, V. cbn [fold_left]. rewrite forallb_app, O. unfold is_octal. cbn [forallb].
+    repeat split; try lia. intros Hnil. apply app_eq_nil in Hnil. destruct Hnil; discriminate.
+Qed.
+
+Lemma ov_zeros k l : ov (repeat 48 k ++ l) 0 = ov l 0.
+Proof. unfold ov. rewrite fold_left_app. induction k as [|k IH]; [reflexivity|]. cbn [repeat fold_left]. exact IH. Qed.
+
+Lemma octal04_spec n : 0 <= n ->
+  octal_value (octal04 n) = n /\ forallb is_octal (octal04 n) = true /\ octal04 n <> [].
+Proof.
+  intros Hn. unfold octal04, octal.
+  destruct (octal_digits_spec (S (Z.to_nat (Z.log2 n))) n) as (V & O & N).
+  { split; [lia|]. rewrite Nat2Z.inj_succ, Z2Nat.id by apply Z.log2_nonneg.
+    destruct (Z.eq_dec n 0) as [->|Hz]; [cbn; lia|]. apply Z.log2_spec. lia. }
+  { lia. }
+  set (d := octal_digits (S (Z.to_nat (Z.log2 n))) n []) in *.
+  split; [|split].
+  - change (octal_value ?l) with (ov l 0). rewrite ov_zeros. exact V.
+  - rewrite forallb_app, O, andb_true_r. clear. induction (4 - length d)%nat; [reflexivity|]. cbn. assumption.
+  - intros H. apply app_eq_nil in H. destruct H. contradiction.
+Qed.
+
+Lemma find_byte_skip b : forall l rest, ~ In b l -> find_byte b (l ++ b :: rest) = Some (zlen l).
+Proof.
+  induction l as [|c l IH]; intros rest H; cbn [app find_byte].
+  - rewrite Z.eqb_refl. reflexivity.
+  - replace (c =? b) with false by (symmetry; apply Z.eqb_neq; intros ->; apply H; left; reflexivity).
+    rewrite IH by (intros Hin; apply H; right; exact Hin). rewrite zlen_cons. f_equal. lia.
+Qed.
+
+Definition entry_ok (sha_len : Z) (e : tentry) : Prop :=
+  let '(name, mode, sha) := e in ~ In 0 name /\ 0 <= mode <= 4294967295 /\ zlen sha = sha_len.
+
+Lemma octal_no_space l : forallb is_octal l = true -> ~ In 32 l.
+Proof.
+  intros H Hin. rewrite forallb_forall in H. specialize (H 32 Hin). unfold is_octal in H. lia.
+Qed.
+
+Lemma entry_roundtrip_py sha_len e rest : entry_ok sha_len e ->
+  py_entry sha_len false (serialize_entry e ++ rest) = Some (e, rest).
+Proof.
+  destruct e as [[name mode] sha]. intros (Hname & Hmode & Hsha). unfold serialize_entry.
+  destruct (octal04_spec mode ltac:(lia)) as (V & O & N). set (m := octal04 mode) in *.
+  unfold py_entry. rewrite <- !app_assoc. cbn [app].
+  rewrite find_byte_skip by (apply octal_no_space; exact O).
+  rewrite zfirstn_app_exact by reflexivity. cbn [andb].
+  destruct m as [|m0 mm] eqn:Em; [contradiction|]. rewrite <- Em in *.
+  replace (match m with [] => true | _ :: _ => false end) with false by (rewrite Em; reflexivity).
+  rewrite O. cbn [negb orb]. rewrite V. replace (mode >? 4294967295) with false by lia.
+  rewrite zskipn_app_exact by reflexivity.
+  change (SP :: name ++ 0 :: sha ++ rest) with ((SP :: name) ++ 0 :: sha ++ rest).
+  rewrite (find_byte_skip 0 (SP :: name) (sha ++ rest)) by (intros [H|H]; [discriminate|contradiction]).
+  rewrite zlen_cons. replace (1 + zlen name - 1) with (zlen name) by lia.
+  assert (Hs : slice ((SP :: name) ++ 0 :: sha ++ rest) 1 (zlen name) = name).
+  { unfold slice. change (Z.to_nat 1) with 1%nat. cbn [skipn app]. apply (zfirstn_app_exact name). reflexivity. }
+  rewrite Hs.
+  assert (Hk : zskipn (1 + zlen name + 1) ((SP :: name) ++ 0 :: sha ++ rest) = sha ++ rest).
+  { pose proof (zlen_nonneg name). unfold zskipn. replace (Z.to_nat (1 + zlen name + 1)) with (S (Z.to_nat (zlen name + 1))) by lia.
+    cbn [app skipn]. change (name ++ 0 :: sha ++ rest) with (name ++ [0] ++ sha ++ rest). rewrite app_assoc.
+    apply (zskipn_app_exact (name ++ [0])). rewrite zlen_app. reflexivity. }
+  rewrite Hk. rewrite zlen_app. pose proof (zlen_nonneg rest).
+  replace (zlen sha + zlen rest <? sha_len) with false by lia.
+  rewrite <- Hsha. rewrite zfirstn_app_exact, zskipn_app_exact by reflexivity. reflexivity.
+Qed.
+
+Lemma serialize_entry_nonempty e : serialize_entry e <> [].
+Proof.
+  destruct e as [[name mode] sha]. unfold serialize_entry. intros H.
+  apply app_eq_nil in H. destruct H as [_ H]. discriminate.
+Qed.
+
+Lemma tree_roundtrip_lemma sha_len : forall es fuel,
+  Forall (entry_ok sha_len) es -> (length es < fuel)%nat ->
+  py_parse_tree fuel sha_len false (serialize_tree es) = Some es.
+Proof.
+  induction es as [|e es IH]; intros fuel Hall Hf; destruct fuel as [|f]; try (cbn in Hf; lia).
+  - reflexivity.
+  - inversion Hall as [|? ? He Hes]; subst. cbn [py_parse_tree serialize_tree flat_map].
+    destruct (serialize_entry e ++ flat_map serialize_entry es) as [|c t] eqn:E.
+    { apply app_eq_nil in E. destruct E as [E _]. exfalso. eapply serialize_entry_nonempty; eauto. }
+    rewrite <- E. rewrite entry_roundtrip_py by exact He.
+    fold (serialize_tree es). rewrite IH; [reflexivity|exact Hes|cbn in Hf; lia].
 Qed.
